@@ -176,3 +176,10 @@ Qed.
 
 Lemma DInv_reach cf st st' tr : DInv cf st -> reach cf st st' tr -> DInv cf st'.
 Proof. intros I R. induction R; [exact I|]. apply IHR. eapply DInv_trans; eauto. Qed.
+
+(* at no point of any run are more than [jobs] files held by the stream (spawned and not yet reported) *)
+Theorem driver_holds_at_most_jobs cf sched st tr :
+  drun cf (dst0 cf) sched = (st, tr) -> (n_active (d_tasks st) <= c_jobs cf)%nat.
+Proof.
+  intros H. apply drun_reach in H. exact (w_jobs _ _ (DInv_reach _ _ _ _ (DInv_init cf) H)).
+Qed.
